@@ -2,6 +2,9 @@ package checks
 
 import (
 	"fmt"
+	"strings"
+
+	"github.com/fxamacker/cbor/v2"
 
 	cose "github.com/veraison/go-cose"
 
@@ -129,6 +132,38 @@ func wireBucket(m *Node, protected bool) []byte {
 	return refcbor.Encode(m)
 }
 
+// c13produced applies the reference-free half of the property to an encoder
+// call: whatever the bucket encoder produces must obey the rules (judged on
+// the produced bytes by the reference) and must be accepted by the decoder.
+func c13produced(rec *mon.Recorder, cell string, goMap map[any]any, protected bool, in map[string]any) {
+	var out []byte
+	var err error
+	if guard(rec, "header.MarshalCBOR", in, func() {
+		if protected {
+			out, err = cose.ProtectedHeader(goMap).MarshalCBOR()
+		} else {
+			out, err = cose.UnprotectedHeader(goMap).MarshalCBOR()
+		}
+	}) || err != nil {
+		return
+	}
+	rec.Eval(1)
+	rec.Event("produced-buckets")
+	kind := refcose.KUnprotected
+	if protected {
+		kind = refcose.KProtected
+	}
+	inn := map[string]any{"cell": cell, "go": fmt.Sprintf("%#v", goMap), "produced": hexs(out)}
+	if werr := refcose.WellFormed(kind, out); werr != nil && !strings.Contains(werr.Error(), "within int64") {
+		// (an integer label beyond int64 is a valid RFC 9052 label; it is judged by decodability below)
+		rec.Violate("produced-nonconforming", cell, "the encoder produced a header that violates the rules: "+werr.Error(), inn)
+		return
+	}
+	if d, ran := decVerdictBucket(rec, out, protected, inn); ran && !d {
+		rec.Violate("produced-not-decodable", cell, "the encoder produced a header its own decoder refuses", inn)
+	}
+}
+
 // judgeBucket compares the three verdicts for a single-bucket header set.
 func c13judgeBucket(rec *mon.Recorder, cell string, goMap map[any]any, wireMap *Node, protected bool) {
 	in := map[string]any{"cell": cell, "go": fmt.Sprintf("%#v", goMap), "wire": hexs(wireBucket(wireMap, protected))}
@@ -145,6 +180,7 @@ func c13judgeBucket(rec *mon.Recorder, cell string, goMap map[any]any, wireMap *
 		return
 	}
 	want := refGo == nil
+	c13produced(rec, cell, goMap, protected, in)
 	e, ran1 := encVerdictBucket(rec, goMap, protected, in)
 	d, ran2 := decVerdictBucket(rec, wireBucket(wireMap, protected), protected, in)
 	if !ran1 || !ran2 {
@@ -433,6 +469,71 @@ func runC13(c *Ctx) {
 			}
 		}
 	}
+	// ---- Go-specific values and labels that have no counterpart in the CBOR data model of section 3 ----
+	// (no reference verdict on whether they must be accepted: only "produced => conforming and decodable")
+	exotic := map[string]any{
+		"nil-byte-slice":           []byte(nil),
+		"RawMessage-int":           cbor.RawMessage{0x18, 0x2a},
+		"RawMessage-bstr":          cbor.RawMessage{0x41, 0x01},
+		"RawMessage-null":          cbor.RawMessage{0xf6},
+		"RawMessage-array":         cbor.RawMessage{0x81, 0x04},
+		"Tag-2-bstr":               cbor.Tag{Number: 2, Content: []byte{1}},
+		"Tag-unknown":              cbor.Tag{Number: 999, Content: int64(1)},
+		"typed-slice-int64":        []int64{4},
+		"typed-slice-string":       []string{"a"},
+		"typed-map":                map[string]any{"a": int64(1)},
+		"byte-array":               [3]byte{1, 2, 3},
+		"ByteString":               cbor.ByteString("ab"),
+		"pointer-to-bytes":         &[]byte{1},
+		"nil-countersig":           (*cose.Countersignature)(nil),
+		"empty-countersig-list":    []*cose.Countersignature{},
+		"list-with-nil-countersig": []*cose.Countersignature{nil},
+		"float32":                  float32(1.5),
+		"named-string":             namedString("a/b"),
+		"named-bytes":              namedBytes{1, 2},
+	}
+	names := make([]string, 0, len(exotic))
+	for n := range exotic {
+		names = append(names, n)
+	}
+	sortStrings(names)
+	for _, l := range c13labels {
+		for _, n := range names {
+			for _, protected := range []bool{true, false} {
+				for _, t := range []int{0, 1, 9} {
+					gl, ok := spell(l, t)
+					if !ok {
+						continue
+					}
+					goMap := map[any]any{gl: exotic[n]}
+					if il, isInt := l.(int64); isInt && il == 2 {
+						goMap[int64(4)] = []byte("kid")
+					}
+					cell := fmt.Sprintf("go-specific/label=%v/value=%s/protected=%v/spelling=%s", l, n, protected, gen.SpellNames[t])
+					rec.Class(cell)
+					c13produced(rec, cell, goMap, protected, map[string]any{"cell": cell})
+				}
+			}
+		}
+	}
+	// labels of unsigned type above MaxInt64, alone and next to their wrapped counterpart
+	for _, big := range []uint64{1 << 63, 1<<63 + 1, 1<<63 + 4, ^uint64(0)} {
+		for _, protected := range []bool{true, false} {
+			for _, withTwin := range []bool{false, true} {
+				goMap := map[any]any{big: int64(1)}
+				if withTwin {
+					goMap[int64(big)] = int64(2)
+				}
+				if uint64(uint(big)) == big {
+					goMap2 := map[any]any{uint(big): int64(1)}
+					c13produced(rec, fmt.Sprintf("go-specific/label=uint(%d)/protected=%v", big, protected), goMap2, protected, map[string]any{})
+				}
+				cell := fmt.Sprintf("go-specific/label=uint64(%d)/twin=%v/protected=%v", big, withTwin, protected)
+				rec.Class(cell)
+				c13produced(rec, cell, goMap, protected, map[string]any{"cell": cell})
+			}
+		}
+	}
 	rec.Exhaustive = !c.Thorough
 	// ---- random multi-parameter sets ----
 	nRand := c.N(4000, 300000)
@@ -469,3 +570,6 @@ func runC13(c *Ctx) {
 	rec.RequireClasses(5000)
 	rec.Sample("cell", map[string]any{"cell": "label=5/value=bstr/protected=true/spelling=int8", "go": "ProtectedHeader{int8(5): []byte{1,2}}", "wire": "45a105420102", "verdicts": "encode ok, decode ok, rules ok"})
 }
+
+type namedString string
+type namedBytes []byte
